@@ -12,7 +12,8 @@ PROPERTY = "C12"
 LEVEL = "fault_enumeration"
 CODE = ["yowsup/layers/__init__.py:YowLayer.toLower/toUpper, YowParallelLayer", "yowsup/layers/noise/layer.py:send/receive/_flush_incoming_buffer",
         "yowsup/layers/noise/layer_noise_segments.py:send", "yowsup/layers/coder/layer.py", "yowsup/layers/logger/layer.py", "yowsup/stacks/yowstack.py:getDefaultLayers"]
-BOUNDS = {"quick": "[+ send during a handshake; reconnect histories len<=6 after up+send] " 
+BOUNDS = {"quick": "[+ keep-alive timeout fault; socket dispatcher reconnect (2 connections, <=2 incoming)] " 
+                   "[+ send during a handshake; reconnect histories len<=6 after up+send] " 
                    "[+ keep-alive pong on which the application fails; reconnect histories len<=4 on the real network layer and dispatcher] " 
                    "[+ a segment arriving while the session is not ready; the two callers of the delivery loop with one pre-emption after k<=13 lines] " 
                    "11 failure kinds (6 downward incl. socket error, interrupt, connection found dead by the write; 5 upward incl. a failing key request for a parked message) x position 0..2 in a sequence of 3 operations x follow-up in {send, incoming frame}; oversize length symbolic in [2^24, 2^25]",
